@@ -8,6 +8,7 @@ CONSTANTS
   RejectChoices = {TRUE,FALSE}
   MaxPairChoices = {0,1}
   Classes = {"A","X"}
+  PriorChoices = {"none"}
   PlainStrats = {}
   PairLevelOnly = FALSE
   Variant = "D103"
